@@ -59,3 +59,4 @@ let ghost mid = f.out();''',
 
 
 UNITS = {'c15_write_quoted': (['C15'], write_quoted_unit)}
+SEARCH = {'c15_write_quoted': ['c15_quoted']}
